@@ -13,7 +13,8 @@
    its clip lies inside the buffer and inside the handed rectangle r). *)
 From Coq Require Import ZArith List Bool.
 From Tickit Require Import RectDefs WinRectSet WinDefs WinSpec WinHist
-  WinExposeProofs WinLogDisjoint WinFlushProofs WinScreenInv WinPreserve WinTermResize WinHistory WinC01Extra.
+  WinExposeProofs WinLogDisjoint WinFlushProofs WinScreenInv WinPreserve WinTermResize WinHistory WinC01Extra
+  WinRectSetProofs WinScrollDesc WinScrollRegion WinScrollFold WinScrollSpec WinScrollOps WinScrollInv WinHistoryFull WinReDefs WinReProofs WinReFlags WinReEstablish WinReExample.
 Import ListNotations.
 Local Open Scope Z_scope.
 
@@ -102,38 +103,153 @@ Theorem C01_init : forall nl nc orc, 0 < nl -> 0 < nc ->
 Proof. exact init_inv. Qed.
 Print Assumptions C01_init.
 
-(* FULL STATEMENT (C01_history): for every finite history of window-tree operations
-   (interleaved with flushes at arbitrary points) on every tree, and every scroll oracle,
-   after each flush every terminal cell shows the composition.
-   PROVED (C01_history_partial / C01_history_flushed_partial): for every history over the
-   alphabet WITHOUT the three scroll operations ([run_ok]: each step is a flush or an
-   operation meeting op_side2 -- op_side, or a terminal resize to a positive size -- and no
-   fuel fault), starting from any
-   state with the invariant (e.g. C01_init), with handlers that repaint what they are asked:
-   the invariant holds throughout, and after a history that ends with a flush the damage is
-   empty and every screen cell shows the composition.  No bound on the length of the
-   history, the number of windows or the coordinates.
-   MISSING: preservation of ScreenInv by OScroll / OScrollRect / OScrollKids.
-   The scroll case needs (i) the case analysis of _scrollrectset per stored rectangle
-   (accepted: the terminal content and the application content shift alike, pending damage
-   is shifted, the vacated strips are exposed; refused or too large: everything exposed) and
-   (ii) that the visible region contains NO cell of a child / higher sibling and that its
-   rectangles are pairwise disjoint, i.e. the exactness of rectset subtract
-   (WinRectSetProofs.rs_subtract_covered_partial proves only that nothing outside the holes
-   is lost) and the rectset invariant, which are property C05's theorems.  These operations are covered by the correspondence check
-   (model = C after every flush, compose oracle) only. *)
-Theorem C01_history_partial : forall progs,
-  (forall id, progs id = [DPaint]) ->
-  forall ops m, MInv m -> run_ok progs ops m -> MInv (run no_defects progs ops m).
-Proof. exact history_preserves. Qed.
-Print Assumptions C01_history_partial.
+(* ---- the three scroll operations, for EVERY scroll oracle of the terminal ---- *)
 
-Theorem C01_history_flushed_partial : forall progs,
+(* MInv3 = ScreenInv + unique ids + the rectangle-set invariant Inv of the damage (the
+   window layer's sets are the C05 model; its theorems give exact regions and disjoint
+   pieces).  What _scroll does (WinScrollSpec.win_scroll_spec): every screen cell afterwards
+   is covered by damage, or lies outside the scrolled visible region V and is unchanged, or
+   lies in V together with its source cell and shows what the source cell showed -- whether
+   the terminal accepted, refused or partially accepted the requests.  With the
+   application's half of the contract (its content shifts alike; scroll_with_children:
+   the children are moved along) the invariant is preserved.  Only side condition:
+   [vis_nonempty]: visible windows have non-empty rectangles. *)
+Theorem C01_scroll_spec : forall app st tm id orig d r mask st' tm' ret,
+  ScreenInv app st tm -> NoDup (t_ids (r_tree st)) -> vis_nonempty (r_tree st) ->
+  win_scroll no_defects st tm id orig d r mask = (st', tm', ret) -> r_fault st' = false ->
+  r_tree st' = r_tree st /\ all_nonempty (r_damage st') /\
+  t_lines tm' = t_lines tm /\ t_cols tm' = t_cols tm /\
+  (r_damage st' <> [] -> r_nexp st' = true /\ r_later st' = true) /\
+  (r_queue st' <> [] -> r_later st' = true) /\
+  forall q, cell_inb (root_selfrect st) q = true ->
+    covered (r_damage st') q \/
+    (~ scrollV (r_tree st) id orig mask q /\ t_grid tm' q = shows app (r_tree st) q) \/
+    (scrollV (r_tree st) id orig mask q /\
+     scrollV (r_tree st) id orig mask (fst q + d, snd q + r) /\
+     t_grid tm' q = shows app (r_tree st) (fst q + d, snd q + r)).
+Proof. exact (@WinScrollSpec.win_scroll_spec). Qed.
+Print Assumptions C01_scroll_spec.
+
+Theorem C01_scroll : forall progs m id d r,
+  MInv3 m -> vis_nonempty (r_tree (m_root m)) ->
+  r_fault (m_root (step no_defects progs (OScroll id d r) m)) = false ->
+  MInv3 (step no_defects progs (OScroll id d r) m).
+Proof. exact (@WinScrollInv.scroll_preserves). Qed.
+Print Assumptions C01_scroll.
+
+Theorem C01_scrollrect : forall progs m id rc d r,
+  MInv3 m -> vis_nonempty (r_tree (m_root m)) ->
+  r_fault (m_root (step no_defects progs (OScrollRect id rc d r) m)) = false ->
+  MInv3 (step no_defects progs (OScrollRect id rc d r) m).
+Proof. exact (@WinScrollInv.scrollrect_preserves). Qed.
+Print Assumptions C01_scrollrect.
+
+Theorem C01_scroll_with_children : forall progs m id d r,
+  MInv3 m -> vis_nonempty (r_tree (m_root m)) ->
+  r_fault (m_root (step no_defects progs (OScrollKids id d r) m)) = false ->
+  MInv3 (step no_defects progs (OScrollKids id d r) m).
+Proof. exact (@WinScrollInv.scrollkids_preserves). Qed.
+Print Assumptions C01_scroll_with_children.
+
+(* every operation keeps the damage set a rectangle set in the sense of property C05 *)
+Theorem C01_damage_inv : forall progs o m,
+  ids_unique (r_tree (m_root m)) -> Inv (r_damage (m_root m)) -> step_side3 (m_root m) o ->
+  Inv (r_damage (m_root (step no_defects progs o m))).
+Proof. exact (@WinScrollInv.dinv_step). Qed.
+Print Assumptions C01_damage_inv.
+
+(* every operation of the alphabet other than the flush *)
+Theorem C01_preserved_all : forall progs o m,
+  MInv3 m -> op_side3 (m_root m) o -> r_fault (m_root (step no_defects progs o m)) = false ->
+  MInv3 (step no_defects progs o m).
+Proof. exact (@WinScrollInv.step_preserves3). Qed.
+Print Assumptions C01_preserved_all.
+
+(* ---- C01 over histories, at full strength ----
+   For every finite history of window-tree operations -- new, close, show, hide, the four
+   restacks, move / resize / set_geometry (with the exposes of old and new area), expose,
+   scroll / scrollrect / scroll_with_children, terminal resize, focus and cursor operations
+   -- interleaved with flushes at arbitrary points, on every tree, for every scroll oracle
+   of the terminal: the invariant holds throughout, and after every flush the damage is
+   empty and every screen cell shows the composition.  [run_ok3]: each step is a flush or
+   meets op_side3 (fresh ids for new windows; show / hide / geometry not on the root;
+   geometry with its exposes; positive terminal sizes; visible windows non-empty when
+   scrolling) and no rectangle-set loop runs out of fuel.  No bound on the length of the
+   history, the number of windows or the coordinates. *)
+Theorem C01_history : forall progs,
   (forall id, progs id = [DPaint]) ->
-  forall ops m, MInv m -> run_ok progs (ops ++ [OFlush]) m ->
+  forall ops m, MInv3 m -> run_ok3 progs ops m -> MInv3 (run no_defects progs ops m).
+Proof. exact (@WinHistoryFull.history_preserves3). Qed.
+Print Assumptions C01_history.
+
+Theorem C01_history_flushed : forall progs,
+  (forall id, progs id = [DPaint]) ->
+  forall ops m, MInv3 m -> run_ok3 progs (ops ++ [OFlush]) m ->
     all_shown (run no_defects progs (ops ++ [OFlush]) m).
-Proof. exact history_flushed. Qed.
-Print Assumptions C01_history_flushed_partial.
+Proof. exact (@WinHistoryFull.history_flushed3). Qed.
+Print Assumptions C01_history_flushed.
+
+Theorem C01_init_full : forall nl nc orc, 0 < nl -> 0 < nc -> r_fault (m_root (m_init nl nc orc)) = false ->
+  MInv3 (m_init nl nc orc).
+Proof. exact (@WinHistoryFull.init_inv3). Qed.
+Print Assumptions C01_init_full.
+
+(* ---- expose handlers that re-enter the window layer during the flush ----
+   (tickit_window_expose / show / hide / raise / lower / raise_to_front / lower_to_back called
+   from inside an expose handler; WinReDefs.v).  What they add during the render loop stays
+   in the damage set with needs_expose set, for the next flush. *)
+
+(* with no such calls the re-entrant flush is the plain one *)
+Theorem C01_reentrant_pure : forall cfg hnd st tm,
+  ids_unique (r_tree st) ->
+  win_flush_re cfg (re_handler cfg hnd (fun _ => [])) st tm = win_flush cfg hnd st tm.
+Proof. exact (@WinReProofs.flush_re_pure). Qed.
+Print Assumptions C01_reentrant_pure.
+
+(* the flag invariant -- damage pending implies needs_expose and needs_later_processing,
+   queued restacks imply needs_later_processing -- survives a flush whose handlers re-enter,
+   whatever they call and whatever the defect configuration *)
+Theorem C01_reentrant_flags : forall cfg hnd racts st tm st' tm' lg,
+  FlagInv st ->
+  win_flush_re cfg (re_handler cfg hnd racts) st tm = (st', tm', lg) ->
+  FlagInv st'.
+Proof. exact (@WinReFlags.flush_re_flaginv). Qed.
+Print Assumptions C01_reentrant_flags.
+
+(* and so does the screen invariant: after such a flush every screen cell shows the
+   composition of the FINAL tree or lies in the damage the handlers registered (which the
+   next flush renders, by C01_flush) -- arbitrary calls, including show and hide of windows
+   the traversal has yet to visit *)
+Theorem C01_reentrant_flush : forall app progs racts st tm st' tm' lg,
+  ScreenInv app st tm -> ids_unique (r_tree st) ->
+  (forall id, progs id = [DPaint]) ->
+  (forall id a, In a (racts id) ->
+     match a with RShow w | RHide w => w <> t_id (r_tree st) | _ => True end) ->
+  win_flush_re no_defects (re_handler no_defects (prog_handler app progs) racts) st tm = (st', tm', lg) ->
+  r_fault st' = false ->
+  ScreenInv app st' tm' /\ ids_unique (r_tree st').
+Proof. exact (@WinReEstablish.flush_re_establishes). Qed.
+Print Assumptions C01_reentrant_flush.
+
+Example C01_reentrant_nonvacuous :
+  (* after the first flush: damage pending (exactly window 2's area), the flags raised, every
+     cell outside the damage shows the composition -- but the screen as a whole does not: window
+     2's cells show what the ROOT painted there *)
+  r_damage (m_root nv_m1) = [mkRect 2 3 2 3] /\
+  r_nexp (m_root nv_m1) = true /\ r_later (m_root nv_m1) = true /\ r_fault (m_root nv_m1) = false /\
+  pending_ok nv_m1 = true /\ screen_ok nv_m1 = false /\
+  t_grid (m_term nv_m1) (2, 3) = m_app nv_m1 0 2 3 /\
+  (* window 1 was exposed, window 2 was not *)
+  map fst (m_xlog nv_m1) = [1; 0] /\
+  (* after the second flush: no damage, the screen is the composition, and window 2's cells show
+     window 2's content *)
+  r_damage (m_root nv_m2) = [] /\ r_nexp (m_root nv_m2) = false /\ r_fault (m_root nv_m2) = false /\
+  screen_ok nv_m2 = true /\ pending_ok nv_m2 = true /\
+  t_grid (m_term nv_m2) (2, 3) = m_app nv_m2 2 0 0 /\
+  t_grid (m_term nv_m2) (3, 5) = m_app nv_m2 2 1 2 /\
+  t_grid (m_term nv_m2) (2, 3) <> t_grid (m_term nv_m1) (2, 3) /\
+  map fst (m_xlog nv_m2) = [2; 0].
+Proof. exact (@WinReExample.re_nonvacuous). Qed.
 
 (* [shows] is [compose] on the screen of a visible root *)
 Theorem C01_shows_is_compose : forall app tree q,
